@@ -92,6 +92,14 @@ pub extern "C" fn main(argc: c_int, argv: *const *const c_char, envp: *const *co
         rp.extend_from_slice(b".rep");
         return mode_report(argc, argv, envp, &rp, &flags, &exe);
     }
+    if base == b"sh" {
+        // stand-in for the platform shell (C16): report what the "shell" was given
+        let v = unsafe { libc::getenv(b"VCHILD_REPORT\0".as_ptr() as *const c_char) };
+        if !v.is_null() {
+            let path = unsafe { CStr::from_ptr(v).to_bytes().to_vec() };
+            return mode_report(argc, argv, envp, &path, b"x", &exe);
+        }
+    }
     if argc < 2 {
         return 2;
     }
